@@ -153,4 +153,74 @@ theorem readChunks_all_or_nothing {ε} (now : Nat) (t : Tier) (md : Meta) (w : W
   · left
     simp [hfull]
 
+/-- The outcome of the read phase as a function of the chunk entries that were served. -/
+def readResult (md : Meta) (its : List Item) : ReadOut :=
+  let s := its.foldl (fun s it => hitStep md s it.data) { buf := Bytes.zeros md.length }
+  if its.length != md.numChunks || s.miss then ReadOut.miss else ReadOut.value s.buf
+
+theorem eval_readChunks_getq' {ε} (now : Nat) (t : Tier) (key : Bytes) (md : Meta) (w : World) (tk : List Bytes) :
+    (readChunks (ε := ε) t .getq key 0 md).eval now w tk =
+      (readResult md (presentItems now (w.get t) key md.numChunks 0), [], w, tk) :=
+  eval_readChunks_getq now t key md w tk
+
+/-- **All-or-nothing, store level**: from the chunk entries a consistent store serves for the key
+    of intent `h`, under a metadata record describing `h`, the read phase produces a miss or
+    `h`'s value, whole. -/
+theorem readResult_sound (now : Nat) (s : Store) (md : Meta) (H : List Intent) (h : Intent) (hH : h ∈ H)
+    (hcons : Consistent s H) (hd : h.Describes md) :
+    readResult md (presentItems now s h.key md.numChunks 0) = .miss ∨
+    readResult md (presentItems now s h.key md.numChunks 0) = .value h.data := by
+  unfold readResult
+  obtain ⟨htok, hlen, _, hn, hcs⟩ := hd
+  generalize hits : presentItems now s h.key md.numChunks 0 = its
+  simp only
+  by_cases hfull : its.length = md.numChunks
+  · by_cases hm : (its.foldl (fun s it => hitStep md s it.data) { buf := Bytes.zeros md.length }).miss = true
+    · left; simp [hm]
+    · right
+      have hm' : its.any (fun it => it.data.take Gen.chunked_tokenSize != md.token) = false := by
+        rw [foldl_miss] at hm; simpa using hm
+      -- every served chunk is `h`'s own
+      have hown : its.map (fun it => it.data) = (List.range' 0 md.numChunks).map h.chunkVal := by
+        apply List.ext_getElem?
+        intro j
+        by_cases hj : j < md.numChunks
+        · have hp := presentItems_full now s h.key md.numChunks 0 (by rw [hits]; exact hfull) j hj
+          rw [hits, Nat.zero_add] at hp
+          have hjl : j < its.length := by omega
+          have hget : its[j]? = some its[j] := List.getElem?_eq_getElem hjl
+          rw [hget] at hp
+          obtain ⟨hs, _⟩ := look_some_iff.mp hp
+          obtain ⟨h', hH', hk', hv⟩ := hcons.chunkE h.key j its[j] hs
+          -- its token is the metadata's, hence `h'` is `h`
+          have hnot : (its[j].data.take Gen.chunked_tokenSize != md.token) = false := by
+            have := List.any_eq_false.mp hm' its[j] (List.getElem_mem hjl)
+            simpa using this
+          have ht' := hcons.toklen h' hH'
+          have : h'.token = h.token := by
+            have e1 : its[j].data.take Gen.chunked_tokenSize = h'.token := by
+              rw [hv, Intent.chunkVal, Gen.chunked_tokenSize]; exact List.take_left' ht'
+            rw [e1] at hnot
+            rw [← htok]; simpa using hnot
+          have heq := hcons.tokens h' hH' h hH this
+          subst heq
+          simp [hget, hv, hj, List.getElem?_range']
+        · have h1 : its.length ≤ j := by omega
+          simp [List.getElem?_eq_none, h1, Nat.not_lt.mp hj]
+      have hfold : its.foldl (fun s it => hitStep md s it.data) { buf := Bytes.zeros md.length } =
+          ((List.range' 0 md.numChunks).map h.chunkVal).foldl (fun s d => hitStep md s d) { buf := Bytes.zeros md.length } := by
+        rw [← hown, List.foldl_map]
+      have hk := hcons.keylen h hH
+      have hspec := h.n_spec hk
+      have hz : ({ buf := Bytes.zeros md.length } : ReadSt) =
+          { buf := partialBuf h.data h.ds 0, chunk := 0, miss := false, lastErr := none, sawNoop := false } := by
+        rw [partialBuf_zero, hlen]
+      rw [hfold, hz, foldl_own md h hlen hcs (hcons.toklen h hH) htok md.numChunks 0 none false
+        (by rw [Nat.zero_add, hn, Nat.mul_comm]; exact hspec.2)]
+      simp only [hfull, bne_self_eq_false, Bool.false_or, Bool.false_eq_true, if_false, Nat.zero_add]
+      rw [partialBuf_full _ _ _ (by rw [hn, Nat.mul_comm]; exact hspec.1)]
+  · left
+    simp [hfull]
+
+
 end Rend.Chunked
